@@ -63,6 +63,8 @@ where
             let results: Vec<(T, f64)> = (0..the_graph.number_of_nodes())
                 .into_par_iter()
                 .map(|source| {
+                    #[cfg(feature = "verif-hooks")]
+                    crate::verif_hooks::par_item("closeness", source);
                     let shortest_paths = match weighted {
                         true => single_source_shortest_path_length_weighted(the_graph, source),
                         false => single_source_shortest_path_length_unweighted(the_graph, source),
